@@ -149,3 +149,96 @@ func zzH_C28_stack_frames() {
 	zzReach("frames")
 	zzObserve("top", arena.top)
 }
+
+// ---- precompile result cache: a cache key must determine everything Run reads ----
+
+// normalizeZeroPadded(input, k): two inputs with the same key read the same through a
+// k-byte zero-extended window (what ecrecover / bn256Add / bn256ScalarMul do).
+func zzH_C28_zero_padded_key() {
+	k := zzChoice(zzBound("PREFIX") + 1)
+	a, b := zzNondetBytes(zzBound("PREFIX")+2), zzNondetBytes(zzBound("PREFIX")+2)
+	ka, kb := normalizeZeroPadded(a, k), normalizeZeroPadded(b, k)
+	if !zzBytesEq(ka, kb) {
+		zzReach("different-keys")
+		return
+	}
+	va, vb := getData(a, 0, uint64(k)), getData(b, 0, uint64(k))
+	zzAssert(zzBytesEq(va, vb), "inputs sharing a key read identically through the zero-extended prefix")
+	zzReach("same-key")
+}
+
+// The three prefix-reading precompiles pass the length their Run reads: a difference
+// inside that prefix changes the key, a difference right after it does not matter to Run.
+func zzH_C28_prefix_consts() {
+	type pc struct {
+		n NormalizingPrecompile
+		k int
+	}
+	cases := [...]pc{{&ecrecover{}, 128}, {&bn256AddIstanbul{}, 128}, {&bn256AddByzantium{}, 128},
+		{&bn256ScalarMulIstanbul{}, 96}, {&bn256ScalarMulByzantium{}, 96}}
+	c := cases[zzChoice(len(cases))]
+	// Run of these precompiles reads exactly the first k bytes, zero extended
+	// (RightPadBytes(input, 128) / getData(input, 0, 64..128)); k is taken from the
+	// yellow-paper/EIP input layouts: 4x32 bytes, 2 points, point + scalar.
+	a := make([]byte, c.k+1)
+	b := make([]byte, c.k+1)
+	for i := range a {
+		a[i], b[i] = 0x11, 0x11
+	}
+	pos := [...]int{0, 31, 32, 63, 64, c.k - 2, c.k - 1, c.k}
+	i := pos[zzChoice(len(pos))]
+	a[i], b[i] = zzNondetU8(), zzNondetU8()
+	ka, oka := c.n.NormalizeInput(a)
+	kb, okb := c.n.NormalizeInput(b)
+	zzAssert(oka && okb, "always cacheable")
+	same := zzBytesEq(ka, kb)
+	if i < c.k {
+		zzAssert(same == (a[i] == b[i]), "a byte Run reads is part of the key")
+		zzReach("inside")
+	} else {
+		zzAssert(same, "a byte beyond what Run reads is not part of the key")
+		zzReach("beyond")
+	}
+}
+
+// MODEXP: inputs sharing a key agree on the three lengths and - unless the modulus is
+// empty, which fixes the result - on the zero-extended operand bytes Run reads.
+func zzH_C28_modexp_key() {
+	L := uint64(zzBound("OPS"))
+	max := 96 + 3*int(L) + 2
+	a, b := zzNondetBytes(max), zzNondetBytes(max)
+	lens := func(in []byte) (bl, el, ml uint64, ok bool) {
+		x := new(uint256.Int).SetBytes(getData(in, 0, 32))
+		y := new(uint256.Int).SetBytes(getData(in, 32, 32))
+		z := new(uint256.Int).SetBytes(getData(in, 64, 32))
+		small := zzAll(x[1]|x[2]|x[3] == 0, y[1]|y[2]|y[3] == 0, z[1]|z[2]|z[3] == 0, x[0] <= L, y[0] <= L, z[0] <= L)
+		return x[0], y[0], z[0], small
+	}
+	abl, ael, aml, oka := lens(a)
+	bbl, bel, bml, okb := lens(b)
+	zzAssume(oka) // operand lengths within the bound (longer operands are outside this harness)
+	zzAssume(okb)
+	p := &bigModExp{eip2565: zzNondetBool(), eip7823: zzNondetBool(), eip7883: zzNondetBool()}
+	ka, c1 := p.NormalizeInput(a)
+	kb, c2 := p.NormalizeInput(b)
+	zzAssert(c1 && c2, "inputs with addressable lengths are cacheable")
+	if !zzBytesEq(ka, kb) {
+		zzReach("different-keys")
+		return
+	}
+	zzAssert(abl == bbl && ael == bel && aml == bml, "same key, same operand lengths")
+	if aml != 0 {
+		body := func(in []byte) []byte {
+			if len(in) > 96 {
+				return in[96:]
+			}
+			return in[:0]
+		}
+		va := getData(body(a), 0, abl+ael+aml)
+		vb := getData(body(b), 0, abl+ael+aml)
+		zzAssert(zzBytesEq(va, vb), "same key, same base/exponent/modulus bytes")
+		zzReach("same-key-operands")
+	} else {
+		zzReach("same-key-empty-modulus")
+	}
+}
